@@ -559,11 +559,9 @@ def check_c13(tier, seed, chk):
             violation(res, dict(sig_base, **{"class": "shown"}),
                       "filters positive=%s skip=%s exact=%s: displayed cases differ from the selected ones: unexpected %s, missing %s" % (list(pos), list(skip), exact, sorted(shown - want_shown)[:4], sorted(want_shown - shown)[:4]), r)
         parents = set(p for p, n in flatten(roots) if n.children)
-        want_parents = set()
-        for p in want_shown:
-            parts = p.split("::")
-            for k in range(1, len(parts)):
-                want_parents.add("::".join(parts[:k]))
+        # (from the model's tree, not by splitting paths: a label may itself contain `::`)
+        want_root = expected_tree(model, sel, "test", "include")
+        want_parents = set("zoo::" + p for p, n in tree_paths(want_root) if n.children) | ({"zoo"} if want_root.children else set())
         if parents != want_parents and shown == want_shown:
             violation(res, dict(sig_base, **{"class": "parents"}), "filters positive=%s skip=%s: group / module nodes shown %s differ from those with a selected case below" % (list(pos), list(skip), sorted(parents ^ want_parents)[:5]), r)
         outcomes.add(len(sel))
